@@ -128,7 +128,7 @@ func (sh bufShape) build(c *RunCtx, w []byte) *bytes.Buffer {
 
 func init() {
 	register(&scenario{
-		Prop: "C07", Run: runC07, Level: "exploration", Quick: 100000, Thorough: 4000000,
+		Prop: "C07", Run: runC07, Level: "exploration", Quick: 150000, Thorough: 4000000,
 		Rule:        "one run = either (direct) one canonical message of one of the 170 types followed by seeded trailing bytes, decoded once; or (same buffer) 1-8 messages of mixed types encoded back to back into ONE buffer (optionally behind already-consumed bytes, with seeded capacity slack and trailing bytes) and recovered by successive decodes from that same buffer object, so decodes start at non-zero read offsets; or (pipeline) 1-3 simulated connections, each carrying 1-8 canonical messages of mixed types encoded back to back into one send buffer, delivered by the simulated wire in seeded segments (all at once / 1-byte dribble / random sizes / cuts at field boundaries) with connections interleaved, to a receiver running the accumulate-and-try-decode loop on private copies. Oracles: decode consumes exactly the message's bytes, the rest is untouched and unread; delivered sequence deep-equals the sent sequence (exactly once, in order); connection buffer ends empty. Fault-free configuration (segmentation only). Non-trivial = trailing bytes / segmentation / batching actually occurred and an oracle ran; distinct = distinct run fingerprints.",
 		Assumptions: []string{"values canonical w.r.t. the pinned schema", "self-computed frame fields are compared with what the encoder put on the wire (their correctness is C04/C05)"},
 	})
@@ -571,7 +571,7 @@ func runC11(c *RunCtx) {
 
 func init() {
 	register(&scenario{
-		Prop: "C08", Run: runC08, Level: "exploration", Quick: 500000, Thorough: 15000000, MemLimit: true,
+		Prop: "C08", Run: runC08, Level: "exploration", Quick: 1500000, Thorough: 30000000, MemLimit: true,
 		Rule:        "one run = a valid encoding of one of the 170 types passed through a byte-substitution fault of the simulated wire — foreign peer (framing intact; arbitrary bytes in text fields incl. interior/all pads, NULs, >=0x80; arbitrary bit patterns in numeric fields incl. NaN payloads and sign bits; wrong self-computed length/checksum), 1-3 bit flips (uniform or aimed at prefixes/discriminators), or pure noise of the right length for fixed-size types — then decoded. Whenever Decode accepts: oracle = re-encoding the decoded object into an empty buffer reproduces exactly the bytes Decode consumed, except that self-computed frame fields (pinned positions) may be replaced by their correct values. Non-trivial = the fault changed at least one byte and the input was accepted; distinct = distinct run fingerprints.",
 		Assumptions: []string{"pinned frame geometry for the mask of self-computed fields", "Decode's consumed count is taken from the buffer's Len() delta"},
 	})
@@ -797,12 +797,12 @@ func faultedInput(c *RunCtx, g *Gen, hostileOnly bool) (name string, w []byte, d
 
 func init() {
 	register(&scenario{
-		Prop: "C09", Run: runC09, Level: "exploration", Quick: 500000, Thorough: 15000000, MemLimit: true, AbortIsViolation: true,
+		Prop: "C09", Run: runC09, Level: "exploration", Quick: 2000000, Thorough: 40000000, MemLimit: true, AbortIsViolation: true,
 		Rule:        "one run = one decoder (any of the 170 types) fed one seeded faulted stream: connection cut at a seeded position, 1-3 bit flips (uniform or aimed at length/count prefixes and discriminators), a length/count prefix rewritten to max / max-1 / half-range / just beyond what is present (optionally with the tail cut away), pure noise of 0..4096 bytes, an unregistered or padded discriminator, a valid prefix followed by garbage, or another type's valid encoding. Monitors: recovered panic; logical tick budget 5000+100*len(input) on the step clock (a decoder that loops is reported deterministically); the worker process runs under the simulated machine's 2 GiB address-space limit, so a runtime out-of-memory abort kills the worker, is attributed to the open run, re-executed alone and reported. Non-trivial = the fault changed the stream and the decoder ran; distinct = distinct run fingerprints.",
 		Assumptions: []string{"the simulated machine has 2 GiB of address space (RLIMIT_AS on the worker)", "'time proportional to the input' is measured in instrumented statements executed, budget 5000+100 per input byte"},
 	})
 	register(&scenario{
-		Prop: "C10", Run: runC10, Level: "exploration", Quick: 400000, Thorough: 12000000, MemLimit: true, AbortIsViolation: true,
+		Prop: "C10", Run: runC10, Level: "exploration", Quick: 1200000, Thorough: 24000000, MemLimit: true, AbortIsViolation: true,
 		Rule:        "one run = one decoder fed a short stream whose length/count prefix (located with the pinned schema) was rewritten to a hostile value, or a blind run of 0xFF bytes, or (control, 1 in 5) an unfaulted valid encoding. Monitor: bytes allocated during the Decode call (runtime.MemStats.TotalAlloc delta; nothing else runs in the worker) must not exceed 8 KiB + 256 bytes per input byte present; a runtime out-of-memory abort under the 2 GiB limit is attributed to the open run and reported. Non-trivial = a hostile prefix was actually written and the decoder ran; distinct = distinct run fingerprints.",
 		Assumptions: []string{"allocation bound 8 KiB + 256 B per input byte: > 3x the densest legitimate decode measured (list of 1-byte texts: about 72 B per wire byte)", "the simulated machine has 2 GiB of address space"},
 	})
@@ -902,7 +902,7 @@ func runC10(c *RunCtx) {
 
 func init() {
 	register(&scenario{
-		Prop: "C15", Run: runC15, Level: "exploration", Quick: 400000, Thorough: 12000000, MemLimit: true,
+		Prop: "C15", Run: runC15, Level: "exploration", Quick: 800000, Thorough: 12000000, MemLimit: true,
 		Rule:        "one run = one byte string accepted by a decoder (a valid encoding, or a foreign-peer/bit-flipped one that is still accepted) decoded into a fresh receiver and into a dirty receiver whose history is seeded in two steps: first {previously decoded a different message of the same type (longer lists, other body/extension type), generator-filled, the same bytes decoded into it before, fresh}, then optionally a FAILED decode of a truncated stream (a strict prefix of another message, or of these very bytes as when a frame arrives in two segments). Oracle: the two results are deep-equal (numbers by bits, nil==empty list). Non-trivial = the dirty receiver really differed from a zero value and both decodes succeeded; distinct = distinct run fingerprints.",
 		Assumptions: []string{"only successful decodes are compared; the state left by a failed decode is outside the property"},
 	})
@@ -1069,7 +1069,7 @@ func runC15(c *RunCtx) {
 
 func init() {
 	register(&scenario{
-		Prop: "C16", Run: runC16, Level: "exploration", Quick: 400000, Thorough: 12000000,
+		Prop: "C16", Run: runC16, Level: "exploration", Quick: 800000, Thorough: 12000000,
 		Rule:        "one run = (decode side) a canonical message's bytes placed in a pooled buffer over a simulator-owned backing array, decoded, the result deep-copied (texts byte-copied), then the pool recycles the buffer: every byte of the array's capacity is overwritten, the buffer Reset and reused for other traffic which is decoded too; or (encode side) a message encoded into a pooled buffer, the bytes snapshotted, then every list element, text and nested part of the message overwritten in place and bodies replaced, then another message encoded behind it. Oracles: decoded message == its copy after recycling; written bytes == snapshot after mutating the message and after the next encode. Non-trivial = the recycle/mutation actually changed memory and the oracle ran; distinct = distinct run fingerprints.",
 		Assumptions: []string{"Go strings are never written through; only simulator-owned arrays and the message's own slices are overwritten"},
 	})
